@@ -7,7 +7,7 @@ use crate::common::*;
 use crate::lifecycle::*;
 use crate::procdrv;
 use crate::sched::{self, EnvConfig};
-use crate::session::frame;
+use crate::session::{frame, notification, request};
 use rayon::prelude::*;
 use serde_json::{json, Value};
 use std::sync::atomic::{AtomicU64, Ordering};
@@ -137,6 +137,42 @@ pub fn eval_prefix(h: &[Msg], cut: usize) -> Option<(String, String)> {
     let _ = on_boundary;
     if let Err((k, d)) = check_responses(&frames_out, &exp, true) {
         return Some((format!("prefix:{}", k), d));
+    }
+    None
+}
+
+/// (d) one session against the binary in which one request (unknown method, so that the answer
+/// is an error of the phase) carries the id `id`; a numeric request follows it
+pub fn eval_id_form(id: &Value, phase: &str) -> Option<(String, String)> {
+    let probe = json!({"jsonrpc": "2.0", "id": id, "method": "foo/bar", "params": {}});
+    let after = request(4242, "foo/baz", json!({}));
+    let init = request(1000, "initialize", json!({"capabilities": {}}));
+    let inited = notification("initialized", json!({}));
+    let shut = request(1001, "shutdown", Value::Null);
+    let exit = notification("exit", Value::Null);
+    let msgs: Vec<Value> = match phase {
+        "before-initialize" => vec![probe.clone(), after.clone(), init, inited, shut, exit],
+        "main" => vec![init, inited, probe.clone(), after.clone(), shut, exit],
+        _ => vec![init, inited, shut, probe.clone(), after.clone(), exit],
+    };
+    let bytes: Vec<u8> = msgs.iter().flat_map(frame).collect();
+    let o = procdrv::run_chunks(&[bytes], false, EXIT_LIMIT);
+    let form = if id.is_string() { "string" } else { "integer" };
+    if o.timed_out {
+        return Some((format!("id-form:{}:{}:hang", form, phase), "no exit".into()));
+    }
+    if let Some(e) = &o.frame_error {
+        return Some((format!("id-form:{}:{}:malformed-output", form, phase), e.clone()));
+    }
+    let with_id = |x: &Value| o.frames.iter().filter(|f| f.get("method").is_none() && f.get("id") == Some(x)).count();
+    if with_id(id) != 1 {
+        return Some((format!("id-form:{}:{}:unanswered", form, phase), format!("{} response(s) with id {} in {:?}", with_id(id), id, o.frames.iter().map(|f| f["id"].clone()).collect::<Vec<_>>())));
+    }
+    if with_id(&json!(4242)) != 1 {
+        return Some((format!("id-form:{}:{}:next-request-unanswered", form, phase), format!("ids answered: {:?}", o.frames.iter().map(|f| f["id"].clone()).collect::<Vec<_>>())));
+    }
+    if o.exit_code != Some(0) {
+        return Some((format!("id-form:{}:{}:exit-status", form, phase), format!("{:?}", o.exit_code)));
     }
     None
 }
@@ -273,8 +309,22 @@ pub fn run(tier: Tier) -> Report {
         })
         .collect();
     fails.extend(fc);
-    rep.states = n_a + n_b + safe.len() as u64;
-    rep.transitions = 2 * n_a + n_b + execs.load(Ordering::Relaxed);
+    // (d) forms of the request id: LSP allows integers (32 bit) and strings; whatever the
+    // form, the response carries the same id - in every phase, and the session goes on
+    let id_forms: Vec<Value> = vec![json!(0), json!(7), json!(2147483647), json!(-1), json!("abc"), json!("7"), json!("")];
+    let phases = ["before-initialize", "main", "after-shutdown"];
+    let id_cases: Vec<(Value, &str)> = id_forms.iter().flat_map(|i| phases.iter().map(move |p| (i.clone(), *p))).collect();
+    let fd: Vec<Failure> = id_cases
+        .par_iter()
+        .filter_map(|(id, phase)| {
+            eval_id_form(id, phase).map(|(k, d)| Failure { key: format!("lifecycle:{}", k), case: json!({"id": id, "phase": phase, "mode": "process-id-form"}), detail: d })
+        })
+        .collect();
+    let n_d = id_cases.len() as u64;
+    fails.extend(fd);
+    rep.extra.insert("id_form_sessions".into(), json!(n_d));
+    rep.states = n_a + n_b + n_d + safe.len() as u64;
+    rep.transitions = 2 * n_a + n_b + n_d + execs.load(Ordering::Relaxed);
     rep.evaluations = rep.transitions;
     rep.traces_validated = 2 * n_a + n_b;
     rep.distinct_nontrivial = n_a;
@@ -314,6 +364,9 @@ fn parse_history(s: &str) -> Vec<Msg> {
 
 pub fn replay(case: &Value) -> Vec<Failure> {
     let h = parse_history(case["history"].as_str().unwrap_or(""));
+    if case["mode"] == json!("process-id-form") {
+        return eval_id_form(&case["id"], case["phase"].as_str().unwrap_or("main")).map(|(k, d)| vec![Failure { key: format!("lifecycle:{}", k), case: case.clone(), detail: d }]).unwrap_or_default();
+    }
     let r = if let Some(c) = case.get("prefix_bytes").and_then(|v| v.as_u64()) {
         eval_prefix(&h, c as usize)
     } else if let Some(s) = case.get("schedule").and_then(|v| v.as_array()) {
